@@ -171,10 +171,11 @@ def headerset_insertion_rule(ctx: Ctx, rule: str) -> int:
             elif op in ("extend", "__iadd__") and args:
                 x = _single_element(args[0])
             elif op == "__setitem__":
-                grows = isinstance(H.P(args[0]), ast.Slice)
+                c = H.const_of(args[-1]) if args else H._NOCONST
+                grows = _slice_statement(ev[-2]) and not (c is not H._NOCONST and not c) and not _selection_of(args[-1], f"{H.SELF}.{LIST}")
             elif op == "store":
                 c = H.const_of(args[0]) if args else H._NOCONST
-                grows = not (c is not H._NOCONST and not c)
+                grows = not (c is not H._NOCONST and not c) and not _selection_of(args[0], f"{H.SELF}.{LIST}")
             else:
                 grows = False
             if not grows:
@@ -223,6 +224,285 @@ def headerset_insertion_rule(ctx: Ctx, rule: str) -> int:
         ok = d["single"] and d["guard"] and d["paired"]
         fact = f"`{H.norm(d['node'])}`: single-element={d['single']}, found absent on every path={d['guard']}, key added to _set alongside={d['paired']}" + ("; " + d["why"][0] if d["why"] else "")
         ctx.ob(rule, f"HeaderSet.{nm}: list growth is per element under its own membership test", ok, fact, fi or hs.fq, d["node"], f"HeaderSet.{nm} growth {d['op']}")
+    return len(sites)
+
+
+def lower_base(term: str) -> str | None:
+    """``x`` when the term is ``x.lower()`` / ``x.casefold()`` / ``str.lower(x)``; None otherwise."""
+    n = H.P(term)
+    if isinstance(n, ast.Call) and isinstance(n.func, ast.Attribute) and n.func.attr in ("lower", "casefold") and not n.args and H.dotted(n.func) not in ("str.lower", "str.casefold"):
+        return H.text(n.func.value)
+    if isinstance(n, ast.Call) and H.dotted(n.func) in ("str.lower", "str.casefold") and len(n.args) == 1:
+        return H.text(n.args[0])
+    return None
+
+
+_eq_cache: dict[str, tuple[str, str] | None] = {}
+
+
+def _eq_sides(key: str) -> tuple[str, str] | None:
+    """(a, b) for a fact key of the form ``a == b``."""
+    if key not in _eq_cache:
+        n = H.P(key) if " == " in key else None
+        _eq_cache[key] = (H.text(n.left), H.text(n.comparators[0])) if isinstance(n, ast.Compare) and len(n.ops) == 1 and isinstance(n.ops[0], ast.Eq) else None
+    return _eq_cache[key]
+
+
+def _whole(term: str, cont: str) -> bool:
+    """the term iterates the whole container ``cont`` (possibly through a copy)."""
+    if term == cont:
+        return True
+    n = H.P(term)
+    if isinstance(n, ast.Call) and H.dotted(n.func) in ("list", "tuple", "iter") and len(n.args) == 1 and not n.keywords:
+        return _whole(H.text(n.args[0]), cont)
+    return False
+
+
+def _enumerates(term: str, cont: str) -> bool:
+    n = H.P(term)
+    return isinstance(n, ast.Call) and H.dotted(n.func) == "enumerate" and len(n.args) == 1 and not n.keywords and _whole(H.text(n.args[0]), cont)
+
+
+def _filter_keys(value: str, cont: str) -> set[str] | None:
+    """``[t for t in cont if t.lower() != K ...]`` (list / generator spelling): the keys K whose elements the filter
+    drops; None when the value is not such a filter of the container."""
+    n = H.P(value)
+    if isinstance(n, ast.Call) and H.dotted(n.func) in ("list", "tuple") and len(n.args) == 1 and isinstance(n.args[0], ast.GeneratorExp):
+        n = n.args[0]
+    if not isinstance(n, (ast.ListComp, ast.GeneratorExp)) or len(n.generators) != 1:
+        return None
+    g = n.generators[0]
+    if not isinstance(g.target, ast.Name) or not isinstance(n.elt, ast.Name) or n.elt.id != g.target.id or not _whole(H.text(g.iter), cont) or not g.ifs:
+        return None
+    keys: set[str] = set()
+    for c in g.ifs:
+        neg = False
+        while isinstance(c, ast.UnaryOp) and isinstance(c.op, ast.Not):
+            c, neg = c.operand, not neg
+        if not (isinstance(c, ast.Compare) and len(c.ops) == 1 and isinstance(c.ops[0], (ast.Eq, ast.NotEq)) and isinstance(c.ops[0], ast.Eq) == neg):
+            return None
+        a, b = H.text(c.left), H.text(c.comparators[0])
+        if lower_base(a) == g.target.id and not _mentions(b, g.target.id):
+            keys.add(b)
+        elif lower_base(b) == g.target.id and not _mentions(a, g.target.id):
+            keys.add(a)
+        else:
+            return None
+    return keys
+
+
+def _mentions(term: str, name: str) -> bool:
+    return any(isinstance(x, ast.Name) and x.id == name for x in ast.walk(H.P(term)))
+
+
+def _keeps_all(value: str, cont: str) -> bool:
+    """the value holds every element of the container (a copy / a reordering)."""
+    if _whole(value, cont):
+        return True
+    n = H.P(value)
+    if isinstance(n, ast.Call) and H.dotted(n.func) in ("sorted", "reversed", "list", "tuple") and n.args:
+        return _keeps_all(H.text(n.args[0]), cont)
+    if isinstance(n, ast.Call) and isinstance(n.func, ast.Attribute) and n.func.attr == "copy" and not n.args:
+        return _keeps_all(H.text(n.func.value), cont)
+    if isinstance(n, ast.Subscript) and H.text(n.slice) in ("__unparsable__",):
+        return False
+    return False
+
+
+def _selection_of(value: str, cont: str) -> bool:
+    """the value holds elements of the container only (a copy, a reordering, a filter of it): storing it does not
+    grow the container."""
+    if _keeps_all(value, cont):
+        return True
+    n = H.P(value)
+    if isinstance(n, ast.Call) and H.dotted(n.func) in ("list", "tuple", "sorted") and len(n.args) >= 1 and isinstance(n.args[0], ast.GeneratorExp):
+        n = n.args[0]
+    if isinstance(n, (ast.ListComp, ast.GeneratorExp)) and len(n.generators) == 1:
+        g = n.generators[0]
+        return isinstance(g.target, ast.Name) and isinstance(n.elt, ast.Name) and n.elt.id == g.target.id and _whole(H.text(g.iter), cont)
+    if isinstance(n, ast.Call) and H.dotted(n.func) == "filter" and len(n.args) == 2:
+        return _whole(H.text(n.args[1]), cont)
+    return False
+
+
+def _slice_statement(node: ast.AST) -> bool:
+    """the statement stores into / deletes a slice."""
+    tgs = node.targets if isinstance(node, (ast.Assign, ast.Delete)) else [getattr(node, "target", None)]
+    return any(isinstance(t_, ast.Subscript) and isinstance(t_.slice, ast.Slice) for t_ in tgs if t_ is not None)
+
+
+def headerset_removal_rule(ctx: Ctx, rule: str) -> int:
+    """the other half of the pairing: an element leaves the ordered list only together with *its own* lower-cased key
+    leaving the lower-case set.  On every path of the inlined call graph of every public method, each change of the
+    list that drops an element e (``pop`` / ``remove`` / ``del list[i]`` / ``list[i] = new`` / a filtering rebuild;
+    e identified by its terms: the popped value, ``list[i]`` read before the change, the item of the
+    ``enumerate(list)`` step whose index is used, the element found by ``next(i for i, x in enumerate(list) if ...)``
+    / ``list.index(x)``) is accompanied on that path by a removal from the set (``remove`` / ``discard`` /
+    ``difference_update`` ..., before or after) of a key k that is e lower-cased: k is spelled ``e.lower()``, or the
+    path has established ``e.lower() == k``.  Emptying the list is accompanied by emptying / rebuilding the set.
+    (The converse - a key leaves the set but no element is found in the list - is a path that only a broken pairing
+    makes feasible and is not judged.)"""
+    repo = ctx.repo
+    hs = repo.cls("datastructures.structures.HeaderSet")
+    LIST, SET = headerset_roles(repo)
+    L = f"{H.SELF}.{LIST}"
+    iters: dict[str, set[str]] = {}
+    sites: dict[int, dict] = {}
+
+    def site(ev) -> dict:
+        d = sites.get(id(ev[-2]))
+        if d is None:
+            d = sites[id(ev[-2])] = {"node": ev[-2], "fi": ev[-1], "op": ev[2], "ok": True, "why": [], "seen": []}
+        return d
+
+    def element_of_index(i: str) -> tuple[set[str], set[str]]:
+        """(terms naming the element at index term i, keys its lower-cased form is known to equal)."""
+        names = {H.text(H.P(f"({L})[{i}]"))}
+        keys: set[str] = set()
+        n = H.P(i)
+        if isinstance(n, ast.Subscript) and H.text(n.slice) == "0" and isinstance(n.value, ast.Name):
+            its = iters.get(n.value.id)
+            if its and all(_enumerates(x, L) for x in its):
+                names.add(f"{n.value.id}[1]")
+        if isinstance(n, ast.Call) and H.dotted(n.func) == "next" and n.args and isinstance(n.args[0], ast.GeneratorExp) and len(n.args[0].generators) == 1:
+            g = n.args[0].generators[0]
+            tg = g.target
+            if _enumerates(H.text(g.iter), L) and isinstance(tg, ast.Tuple) and len(tg.elts) == 2 and all(isinstance(x, ast.Name) for x in tg.elts) and H.text(n.args[0].elt) == tg.elts[0].id:
+                item = tg.elts[1].id
+                for c in g.ifs:
+                    if isinstance(c, ast.Compare) and len(c.ops) == 1 and isinstance(c.ops[0], ast.Eq):
+                        a, b = H.text(c.left), H.text(c.comparators[0])
+                        if lower_base(a) == item and not _mentions(b, item):
+                            keys.add(b)
+                        elif lower_base(b) == item and not _mentions(a, item):
+                            keys.add(a)
+        if isinstance(n, ast.Call) and isinstance(n.func, ast.Attribute) and n.func.attr == "index" and H.text(n.func.value) == L and n.args:
+            names.add(H.text(n.args[0]))
+        return names, keys
+
+    def known_keys(names: set[str], st) -> set[str]:
+        keys = set()
+        for x in names:  # an element found by a search: next(h for h in list if h.lower() == K)
+            n = H.P(x)
+            if isinstance(n, ast.Call) and H.dotted(n.func) == "next" and n.args and isinstance(n.args[0], ast.GeneratorExp) and len(n.args[0].generators) == 1:
+                g = n.args[0].generators[0]
+                if isinstance(g.target, ast.Name) and _whole(H.text(g.iter), L) and H.text(n.args[0].elt) == g.target.id:
+                    for c in g.ifs:
+                        if isinstance(c, ast.Compare) and len(c.ops) == 1 and isinstance(c.ops[0], ast.Eq):
+                            a, b = H.text(c.left), H.text(c.comparators[0])
+                            if lower_base(a) == g.target.id and not _mentions(b, g.target.id):
+                                keys.add(b)
+                            elif lower_base(b) == g.target.id and not _mentions(a, g.target.id):
+                                keys.add(a)
+        for k, v in st.facts.items():
+            if v is not True:
+                continue
+            sides = _eq_sides(k)
+            if sides is None:
+                continue
+            a, b = sides
+            if lower_base(a) in names:
+                keys.add(b)
+            if lower_base(b) in names:
+                keys.add(a)
+        return keys
+
+    def on_event(a, ev, st):
+        changed, stale, ldrops, sdrops = a
+        if ev[0] == "iter":
+            iters.setdefault(ev[1], set()).add(ev[2])
+            return a
+        if ev[0] == "read" and ev[1] == LIST and ev[2] == "__getitem__" and ev[3] and changed:
+            return (changed, stale | {ev[3][0]}, ldrops, sdrops)
+        if ev[0] == "mut" and ev[1] == LIST:
+            op, args = ev[2], ev[3]
+            names: set[str] | None = None
+            keys: set[str] = set()
+            if op == "pop":
+                names = {H.text(H.P(f"({L}).pop({', '.join(args)})"))}
+                if args:
+                    n2, keys = element_of_index(args[0])
+                    names |= n2
+            elif op == "remove" and args:
+                names = {args[0]}
+            elif op in ("__delitem__", "__setitem__") and args and not _slice_statement(ev[-2]):
+                names, keys = element_of_index(args[0])
+            elif op in ("clear", "__delitem__", "__imul__"):
+                names = None
+            elif op in ("store", "__setitem__") and args:
+                v = args[-1]
+                c = H.const_of(v)
+                fk = _filter_keys(v, L)
+                if op == "store" and _keeps_all(v, L):
+                    return (True, stale, ldrops, sdrops)
+                if c is not H._NOCONST and not c or fk is None:
+                    names = None
+                else:
+                    names, keys = set(), fk
+            else:
+                return (True, stale, ldrops, sdrops)  # growth / reordering: nothing leaves the list
+            d = site(ev)
+            if names is None:
+                drop = ("*", frozenset(), frozenset(), id(ev[-2]))
+            else:
+                names = {x for x in names if not (x.startswith(f"{L}[") and x[len(L) + 1 : -1] in stale)}
+                drop = ("e", frozenset(names), frozenset(keys | known_keys(names, st)), id(ev[-2]))
+            return (True, stale, ldrops | {drop}, sdrops)
+        if ev[0] == "op" and ev[1] == SET:
+            op, args = ev[2], ev[3]
+            k: str | None = None
+            if op in ("remove", "discard") and args:
+                k = args[0]
+            elif op in ("difference_update", "__isub__") and args:
+                k = _single_element(args[0]) or "?"
+            elif op in ("clear", "store", "intersection_update", "__iand__"):
+                k = "*"
+            elif op == "pop":
+                k = "?"
+            if k is None:
+                return a
+            base = lower_base(k) if k not in ("*", "?") else None
+            if base is not None and base.startswith(f"{L}[") and base[len(L) + 1 : -1] in stale:
+                base = None  # the list was read at that index after it had changed: not the element that left
+            eq: set[str] = set()  # terms the path knows to be equal to k (facts that a later change of the list would forget)
+            if k not in ("*", "?"):
+                for f, v in st.facts.items():
+                    sides = _eq_sides(f) if v is True else None
+                    if sides is not None and k in sides:
+                        eq.add(sides[0] if sides[1] == k else sides[1])
+            return (changed, stale, ldrops, sdrops | {(k, base, frozenset(eq))})
+        return a
+
+    def matched(drop, sdrops) -> bool:
+        kind, names, keys, _ = drop
+        for k, base, eq in sdrops:
+            if kind == "*":
+                if k == "*":
+                    return True
+                continue
+            if k in keys or (base is not None and base in names) or any(lower_base(x) in names for x in eq if lower_base(x)):
+                return True
+        return False
+
+    for name, fi in _hs_public(hs):
+        ex = H.Exec(repo, hs, on_event=on_event)
+        for o in ex.run_function(fi, auto0=(False, frozenset(), frozenset(), frozenset())):
+            if o.value.startswith("~"):
+                continue
+            _, _, ldrops, sdrops = o.st.auto
+            for drop in ldrops:
+                d = sites[drop[3]]
+                if matched(drop, sdrops):
+                    continue
+                d["ok"] = False
+                what = "the whole list is emptied / rebuilt" if drop[0] == "*" else f"element {sorted(drop[1]) or '(filtered)'} (lower-cased form known equal to {sorted(drop[2]) or 'nothing'}) leaves the list"
+                got = sorted(k for k, _, _ in sdrops)
+                d["why"].append(f"{what}, the set loses {got if got else 'nothing'} on that path (lines {', '.join(map(str, o.st.trail[-8:]))})")
+    for d in sorted(sites.values(), key=lambda d: (d["fi"].fq if d["fi"] else "", getattr(d["node"], "lineno", 0))):
+        fi = d["fi"]
+        nm = fi.name if fi is not None else "?"
+        fact = f"`{H.norm(d['node'])}`: " + (d["why"][0] if d["why"] else "on every path the set loses the lower-cased form of what leaves the list")
+        ctx.ob(rule, f"HeaderSet.{nm}: an element leaves the list together with its own lower-cased key", d["ok"], fact, fi or hs.fq, d["node"], f"HeaderSet.{nm} removal {d['op']}")
     return len(sites)
 
 
